@@ -1074,12 +1074,14 @@ func c01MapNonNil(c *Ctx, r *Report, scope []*ssa.Function, roots []*ssa.Functio
 			if !ok {
 				continue
 			}
-			p := stripAddrs(pathOf(ifi.Cond))
-			if !strings.HasPrefix(p, "*"+recv+".") {
+			if len(a.Succs[0].Preds) != 1 || !a.Succs[0].Dominates(b) {
 				continue
 			}
-			if len(a.Succs[0].Preds) == 1 && a.Succs[0].Dominates(b) {
-				out[p[1+len(recv):]] = true
+			for _, f := range condFactsOnEdge(ifi.Cond, true, 0) {
+				p := stripAddrs(pathOf(f.v))
+				if f.truth && strings.HasPrefix(p, "*"+recv+".") {
+					out[p[1+len(recv):]] = true
+				}
 			}
 		}
 		return out
